@@ -8,6 +8,7 @@ import (
 
 	"github.com/ozontech/file.d/pipeline"
 	"github.com/ozontech/file.d/pipeline/metadata"
+	"github.com/pierrec/lz4/v4"
 	"go.uber.org/atomic"
 
 	vf "github.com/ozontech/file.d/zzverif"
@@ -348,4 +349,105 @@ func verifRefLines2(content []byte) (calls []verifCall, over []bool, tail []byte
 		ls = i + 1
 	}
 	return calls, nil, content[ls:]
+}
+
+// ---- compressed (.lz4) files: resume skips already processed data by reading, not seeking ----
+
+// replaces lz4.NewReader and (*lz4.Reader).Read: the decompressed stream is verifContent, handed out
+// in arbitrary chunks; the last chunk may come together with io.EOF
+func verifStubLz4NewReader(r io.Reader) *lz4.Reader { return new(lz4.Reader) }
+
+func verifStubLz4Read(z *lz4.Reader, b []byte) (int, error) {
+	rem := verifAvail - verifPos
+	if rem == 0 {
+		return 0, io.EOF
+	}
+	m := len(b)
+	if rem < m {
+		m = rem
+	}
+	n := 1 + vf.Choose("chunk", m)
+	copy(b, verifContent[verifPos:verifPos+n])
+	verifPos += n
+	if verifPos == verifAvail && vf.Choose("eof-with-data", 2) == 1 {
+		return n, io.EOF
+	}
+	return n, nil
+}
+
+func verifStubNotBeingWritten(string) bool { return false }
+func verifStubFileName(*os.File) string     { return "f.lz4" }
+
+// C06.H3 / C03: a compressed file resumed from a saved offset: every complete line that ends after
+// the saved offset is handed over exactly once with its end offset; nothing torn is handed over
+// with an offset past the saved one (lines at or before it are dropped later by their offset).
+func VerifH_C06_lz4Resume() {
+	N := vf.Param("N", 6)
+	n := 1 + vf.Choose("n", N)
+	content := verifShaped("content", n)
+	bufSize := 1 + vf.Choose("buf", vf.Param("B", 3))
+	// the saved offset is the end of one of the lines (or 0: nothing saved)
+	var ends []int64
+	for i, c := range content {
+		if c == '\n' {
+			ends = append(ends, int64(i+1))
+		}
+	}
+	saved := int64(0)
+	if len(ends) > 0 {
+		if k := vf.Choose("saved-line", len(ends)+1); k > 0 {
+			saved = ends[k-1]
+		}
+	}
+	twin := vf.Param("twin", 0) == 1
+
+	jp := verifNewProvider()
+	job := &Job{file: new(os.File), sourceID: 1, filename: "f.lz4", mimeType: "application/x-lz4", isCompressed: true, mu: &sync.Mutex{}, isVirgin: true}
+	if saved > 0 {
+		job.offsets = pipeline.SliceFromMap(map[pipeline.StreamName]int64{"not_set": saved})
+	}
+	jp.jobs[1] = job
+	rec := &verifRec{}
+	w := &worker{}
+	verifContent, verifPos, verifAvail, verifStart, verifReads = content, 0, n, 0, 0
+	jp.jobsChan <- job
+	jp.jobsChan <- nil
+	w.work(rec, jp, bufSize, nil)
+
+	var want []verifCall // every complete line (empty ones included: no admission check here)
+	ls := 0
+	for i, c := range content {
+		if c == '\n' {
+			want = append(want, verifCall{int64(i + 1), content[ls : i+1]})
+			ls = i + 1
+		}
+	}
+	// delivered with an offset past the saved one
+	var got []verifCall
+	for _, c := range rec.calls {
+		if c.off > saved {
+			got = append(got, c)
+		}
+	}
+	var wantAfter []verifCall
+	for _, c := range want {
+		if c.off > saved {
+			wantAfter = append(wantAfter, c)
+		}
+	}
+	if twin {
+		vf.Assert(len(got) != len(wantAfter), "lines-after-the-saved-offset")
+		return
+	}
+	vf.Assert(len(got) == len(wantAfter), "lines-after-the-saved-offset")
+	if len(got) != len(wantAfter) {
+		return
+	}
+	for i := range wantAfter {
+		vf.Assert(got[i].off == wantAfter[i].off, "line-offset")
+		vf.Assert(vf.SameBytes(got[i].data, wantAfter[i].data), "line-data")
+	}
+	if saved > int64(bufSize) && len(wantAfter) > 0 {
+		vf.Reach("resumed-past-skipped-data")
+	}
 }
